@@ -93,6 +93,14 @@ func poolOps() []poolOp {
 			}
 			return a.RawMatrix().Data
 		}},
+		{"Inverse-rcond0", func(seed int) []float64 {
+			// the factorization succeeds, the condition estimate underflows to zero: the late error return
+			a := mat.NewDense(2, 2, []float64{1e200, float64(seed), 0, 1e-200})
+			if err := a.Inverse(a); err != nil {
+				return []float64{math.Inf(1)}
+			}
+			return a.RawMatrix().Data
+		}},
 		{"Cholesky-SolveTo", func(seed int) []float64 {
 			a := mk(3, 3, seed)
 			var s mat.SymDense
@@ -133,7 +141,10 @@ func genPools(g *vlib.G) {
 				g.Case(fmt.Sprintf("%s || %s three=%v", ops[i].name, ops[j].name, three), func(t *vlib.T) {
 					vsync.Policy = vsync.PoolDirty
 					vsync.Scrub = scrub
-					defer func() { vsync.Policy = vsync.PoolReal; vsync.Scrub = nil }()
+					vsync.Ident = identOf
+					vsync.FirstDoublePut = ""
+					doublePuts := vsync.PoolStats.DoublePuts
+					defer func() { vsync.Policy = vsync.PoolReal; vsync.Scrub = nil; vsync.Ident = nil }()
 					// each operation alone (fresh pool state irrelevant: results must not depend on it)
 					want := [][]float64{
 						append([]float64(nil), ops[i].run(1)...),
@@ -157,6 +168,9 @@ func genPools(g *vlib.G) {
 						wg.Wait()
 					}
 					explore(t, g, false, body, func(x *vsched.Exec) string {
+						if vsync.PoolStats.DoublePuts != doublePuts {
+							return "a workspace was released twice: " + vsync.FirstDoublePut
+						}
 						for k := 0; k < 3; k++ {
 							if k == 2 && !three {
 								continue
